@@ -48,7 +48,7 @@ extern void __real_arc4random_buf (void *, size_t);
 #endif
 void __wrap_arc4random_buf (void *buf, size_t n)
 {
-  os_calls++;
+  __atomic_fetch_add (&os_calls, 1, __ATOMIC_RELAXED);
   if (os_real) { __real_arc4random_buf (buf, n); return; }
   unsigned char *b = buf;
   for (size_t i = 0; i < n; i++) b[i] = os_pos < os_len ? os_bytes[os_pos++] : 0;
@@ -85,7 +85,7 @@ static void puthex (const unsigned char *p, size_t n)
 
 static const char *errname (int e)
 {
-  static char buf[32];
+  static __thread char buf[32];
   switch (e) {
     case 0: return "0";
     case EINVAL: return "EINVAL";
@@ -101,7 +101,8 @@ static const char *errname (int e)
 static int split (char *line, char **tok)
 {
   int n = 0;
-  for (char *p = strtok (line, " \n"); p && n < MAXTOK; p = strtok (NULL, " \n")) tok[n++] = p;
+  char *save = NULL;   /* strtok_r: the harness itself must be thread-safe for the MT op */
+  for (char *p = strtok_r (line, " \n", &save); p && n < MAXTOK; p = strtok_r (NULL, " \n", &save)) tok[n++] = p;
   return n;
 }
 
